@@ -71,6 +71,24 @@ def queries_root(q):
     return HashMap(64, map_=dict(q), value_serializer=put).serialize()
 
 
+def queries_root_lib(q):
+    """the dictionary root as the model's abstraction boundary defines it: HashMap(64).serialize() (C09/C10) over the values'
+    own WalletMessage.serialize() -- computed apart from HighloadWalletData.serialize; None when empty; raises if a value does"""
+    if not q:
+        return None
+    _, _, HashMap = M._lib()
+    return HashMap(64, map_={k: lib_obj('wm', x) for k, x in q.items()},
+                   value_serializer=lambda src, dest: dest.store_cell(src.serialize())).serialize()
+
+
+def parse_queries(root):
+    """spec reading of a HashmapE 64 WalletMessage root -> {key: canonical wallet message}; dictionary structure by HashMap.parse"""
+    if root is None:
+        return {}
+    _, _, HashMap = M._lib()
+    return HashMap.parse(root.begin_parse(), 64, None, lambda src: dec('wm', src.to_cell()))
+
+
 # ----------------------------------------------------------------------------- spec encoder
 
 def enc(kind, v, choices=(False, False)):
